@@ -17,7 +17,8 @@ try:
     demo = os.path.join(mdir, 'demo.py')
     r0 = sh("/venv/bin/python %s" % demo, env=env, timeout=600)
     res["demo_clean_rc"] = r0.returncode
-    a = sh("git -C %s apply %s" % (wt, os.path.join(os.path.abspath(mdir), 'patch.diff')))
+    pf = os.path.join(os.path.abspath(mdir), 'patch.diff')
+    a = sh("git -C %s apply %s || git -C %s apply -3 %s" % (wt, pf, wt, pf))
     res["apply_rc"] = a.returncode
     if a.returncode: res["apply_out"] = a.stdout[-300:]
     r1 = sh("/venv/bin/python %s" % demo, env=env, timeout=600)
